@@ -9,7 +9,7 @@ import z3
 from . import ops, extract
 from . import keyed as _keyed
 from .ops import exc, is_number
-from .values import FrozenSetE  # noqa: E402
+from .values import FrozenSetE, DictViewE  # noqa: E402
 from .values import (
     Ref, ListE, DequeE, SetE, NumSetE, DictE, ObjE, NdE, SymListE, FuncVal, BoundMethod, ClassVal, BuiltinClass,
     ModuleVal, Builtin, ExcVal, Exc, Opaque, SliceVal, SuperVal, Unknown, Unsupported, EngineError,
@@ -144,6 +144,8 @@ def getattr(I, st, v, name):
                 return
             yield st, exc("AttributeError", "'%s' object has no attribute '%s'" % (e.cls.name, name))
             return
+        if e.__class__ is DictViewE:
+            raise Unsupported("attribute %s of a dictionary view (views only support iteration, len, in)" % name)
         if e.kind in ("list", "deque"):
             yield st, list_method(I, st, v, name)
             return
@@ -1166,14 +1168,27 @@ def dict_method(I, st, ref, name):
             return
         yield st, d.get(I.hashable(a[0]), default)
 
+    # d.items() / d.keys() / d.values() are LIVE views of d (values.DictViewE), not lists and not snapshots
     def items(I, st, a, k):
-        yield st, st.alloc(ListE([(kk, vv) for kk, vv in D(st).items()]))
+        if a or k:
+            raise Unsupported("dict.items takes no argument")
+        r = st.alloc(DictViewE(ref, "items"))
+        st.get(r)
+        yield st, r
 
     def keys(I, st, a, k):
-        yield st, st.alloc(ListE(list(D(st))))
+        if a or k:
+            raise Unsupported("dict.keys takes no argument")
+        r = st.alloc(DictViewE(ref, "keys"))
+        st.get(r)
+        yield st, r
 
     def values(I, st, a, k):
-        yield st, st.alloc(ListE(list(D(st).values())))
+        if a or k:
+            raise Unsupported("dict.values takes no argument")
+        r = st.alloc(DictViewE(ref, "values"))
+        st.get(r)
+        yield st, r
 
     def update(I, st, a, k):
         d = D(st)
@@ -1701,6 +1716,8 @@ def type_of(I, st, v):
         e = st.get(v)
         if e.kind == "obj":
             return e.cls
+        if e.__class__ is DictViewE:
+            raise Unsupported("type() of a dictionary view")
         if e.kind == "set" and e.frozen:
             return BuiltinClass("frozenset", frozenset)
         return BuiltinClass({"list": "list", "dict": "dict", "set": "set", "nd": "ndarray", "deque": "deque", "symlist": "list"}[e.kind])
@@ -2474,6 +2491,10 @@ def isinstance_model(I, st, v, cls):
             if isinstance(cls, BuiltinClass) and cls.name == "dict" and "__dictdata__" in e.attrs:
                 return True
             return isinstance(cls, BuiltinClass) and cls.name == "object"
+        if e.__class__ is DictViewE:
+            if isinstance(cls, BuiltinClass) and cls.name in ("list", "tuple", "dict", "set", "frozenset", "str", "int", "float", "bool", "NoneType", "ndarray", "deque"):
+                return False  # a view is none of these
+            raise Unsupported("isinstance of a dictionary view")
         # a frozenset is not a set and a set is not a frozenset (neither class derives from the other)
         kind = {"list": ("list",), "deque": ("deque",), "dict": ("dict",), "set": (("frozenset",) if getattr(e, "frozen", False) else ("set",)),
                 "nd": ("ndarray",), "numset": ("set",), "symlist": ("list",)}[e.kind]
